@@ -16,7 +16,7 @@ SHARDS = {"quick": 4, "thorough": 16}
 BUDGET = {"quick": 20, "thorough": 240}
 MIN_CASES = {"quick": 20000, "thorough": 300000}
 EXHAUSTIVE_CLAIM = True
-RULE = ("strings = concatenations of tokens from the quantifier's classes: ALL token sequences of length <= 3 (quick) / <= 4 (thorough) over a 38-token core alphabet, "
+RULE = ("strings = concatenations of tokens from the quantifier's classes: ALL token sequences of length <= 3 (quick) / <= 4 (thorough) over a 39-token core alphabet, "
         "all 256 single escapes %00-%FF and (thorough) all 65536 pairs %XX%YY, plus seeded random strings of 5-40 tokens over the full 77-token table; each string "
         "is given to safely_quote, the four safely_unquote_* and upper_quoted (and their second application). A case is one string; non-trivial = contains at least "
         "one '%' or a raw space/delimiter/non-ASCII character; distinct = distinct string.")
